@@ -8,7 +8,7 @@ THEOREMS = [("Sylvia.Thm.C02", "C02." + t) for t in
             ["bindArgs_pairUp", "dispatch_exact", "dispatch_exact_struct", "error_conversion", "parts_faithful"]] + \
            [("Sylvia.Thm.C03", "C03.wrapper_accepts_encoded"), ("Sylvia.Thm.C05Gen", "C05.parts_faithful_closed"),
             ("Sylvia.Thm.Obl.Published", "Obl.published_rule_is_wire_rule"),
-            ("Sylvia.Thm.Obl.Tables", "Obl.ctx_tables_agree"), ("Sylvia.Thm.Obl.Tables", "Obl.result_and_leg")]
+            ("Sylvia.Thm.Obl.T.ctx_tables_agree", "Obl.ctx_tables_agree"), ("Sylvia.Thm.Obl.T.result_and_leg", "Obl.result_and_leg")]
 ADDR = "cosmwasm1jpev2csrppg792t22rn8z8uew8h3sjcpglcd0qv9g8gj8ky922tscp8avs"
 
 
